@@ -1086,7 +1086,8 @@ class ProgramRunner:
                 outcome = ("ok", None)
             elif k == "prefetch":
                 m = op["maxc"] or None
-                fs = self.size if op.get("fsize", True) else None
+                fz = op.get("fsize", True)          # True: the file's size, False: let prefetch() stat, int: that size
+                fs = (self.size if fz else None) if isinstance(fz, bool) else fz
                 outcome = self.call(("prefetch", bool(m)), lambda: self.reader().prefetch(fs, m))
             elif k == "read":
                 f = self.reader()
